@@ -211,22 +211,29 @@ func (rt *ResultTypeExpr) explicitViewDefined() (string, bool) {
 	if !ok {
 		return "", true
 	}
-	t := rt
+	return view, definesView(rt, view)
+}
+
+// definesView returns false if t is a result type, a collection or an array of
+// a result type that cannot be projected with the given view.
+func definesView(t DataType, view string) bool {
 	for {
-		a, ok := t.Type.(*Array)
-		if !ok {
-			break
+		if rt, ok := t.(*ResultTypeExpr); ok {
+			if _, params, _ := mime.ParseMediaType(rt.Identifier); params["view"] == view {
+				return true
+			}
+			if a, ok := rt.Type.(*Array); ok {
+				t = a.ElemType.Type
+				continue
+			}
+			return rt.View(view) != nil
 		}
-		e, ok := a.ElemType.Type.(*ResultTypeExpr)
-		if !ok {
-			break
+		if ar := AsArray(t); ar != nil {
+			t = ar.ElemType.Type
+			continue
 		}
-		t = e
+		return true
 	}
-	if _, params, _ := mime.ParseMediaType(t.Identifier); params["view"] == view {
-		return view, true
-	}
-	return view, t.View(view) != nil
 }
 
 // ensureDefaultView builds the default view if not explicitly defined.
